@@ -110,8 +110,10 @@ type mach struct {
 	maxSteps int
 	finfo    map[*ssa.Function]map[ssa.Value]int32
 	cov      map[*ssa.Function]bool
+	ring     [32]*ssa.Function // the most recently entered functions (for witnesses)
+	ringPos  int
 	ownPkgs  map[*ssa.Package]bool // extra packages evaluated like the module's (self-test)
-	prog     *ssa.Program // program of the code under evaluation when it is not the repository's (self-test)
+	prog     *ssa.Program          // program of the code under evaluation when it is not the repository's (self-test)
 	depth    int
 	nsym     int
 	// intercept is asked before any statically resolved call (module or not): handled=true → its result is used
@@ -942,6 +944,8 @@ func (m *mach) callFn(caller *mframe, fn *ssa.Function, args []mv, env []mv) mv 
 		m.cov[fn] = true
 		covered.Store(fn, true)
 	}
+	m.ring[m.ringPos&31] = fn
+	m.ringPos++
 	ix := m.valueIndex(fn)
 	fr := &mframe{fn: fn, caller: caller, env: make([]mv, len(ix)), idx: ix}
 	for i, p := range fn.Params {
@@ -1975,4 +1979,47 @@ func renderShallow(v mv, depth int) string {
 		return "<unset>"
 	}
 	return mRender(v)
+}
+
+// recentPath: the functions most recently entered by the machine, oldest first, consecutive repeats
+// and accessors collapsed - the tail of the call path of the last run, printed with witnesses.
+func (m *mach) recentPath() string {
+	var names []string
+	n := m.ringPos
+	start := n - 32
+	if start < 0 {
+		start = 0
+	}
+	seen := map[string]bool{}
+	for i := start; i < n; i++ {
+		fn := m.ring[i&31]
+		if fn == nil {
+			continue
+		}
+		name := fn.Name()
+		if r := fn.Signature.Recv(); r != nil {
+			t := r.Type()
+			if p, ok := t.(*types.Pointer); ok {
+				t = p.Elem()
+			}
+			if nt, ok := t.(*types.Named); ok {
+				name = nt.Obj().Name() + "." + name
+			}
+		}
+		if seen[name] {
+			// keep the latest position of a repeated function
+			for k, x := range names {
+				if x == name {
+					names = append(names[:k], names[k+1:]...)
+					break
+				}
+			}
+		}
+		seen[name] = true
+		names = append(names, name)
+	}
+	if len(names) > 10 {
+		names = names[len(names)-10:]
+	}
+	return strings.Join(names, " → ")
 }
